@@ -173,6 +173,65 @@ theorem sender_fresh_tree (P : Prim B) (k : Nat) (enc : B) (before between : Lis
   refine ⟨key, key', hkey, hkey', ?_⟩
   rw [hprev ρ (by rw [hfr.2.2]; exact hρ), hgen]
 
+/-! ### The two ratchets of a sender are independent (senders and receivers)
+
+`sender_fresh_tree` is the sender's half for `next`.  The statement below covers every request: once
+the leaf of a sender is stored in a member's tree (the member has sent or received anything of that
+sender, or the leaf secret was derived on the way to a neighbour), the answer to a request for
+(leaf, key type) — the key, or the error — is not changed by ANY requests for other leaves or for
+the OTHER key type of the same leaf made in between.  In particular a receiver that has served
+application generations up to 50 of a sender answers that sender's handshake generation 0 as it
+would have before (`Ratchet.answer`, `Proofs/SecretTree.lean` §6b: what the ratchet of that (leaf,
+key type) says; `step_answer`: on a shape-invariant tree that is the tree's answer). -/
+
+theorem ratchets_independent (P : Prim B) (k : Nat) (enc : B) (before between : List Req)
+    (q : Req) (hq : q.idx % 2 = 0 ∧ q.idx ≤ 2 * (2 ^ k - 1))
+    (hbefore : ∀ x ∈ before, x.idx % 2 = 0 ∧ x.idx ≤ 2 * (2 ^ k - 1))
+    (hbetween : ∀ x ∈ between,
+      (x.idx % 2 = 0 ∧ x.idx ≤ 2 * (2 ^ k - 1)) ∧ (x.idx ≠ q.idx ∨ x.kt ≠ q.kt)) :
+    let t0 := (SecretTree.run P (SecretTree.new (2 ^ k) enc) before).2
+    hasKey t0.known q.idx →
+      ((SecretTree.run P t0 between).2.step P q).1 = (t0.step P q).1 := by
+  intro t0 hstored
+  have hleaf : ∀ j, (j % 2 = 0 ∧ j ≤ 2 * (2 ^ k - 1)) → IsLeafOf k j := by
+    intro j hj
+    have := Nat.two_pow_pos k
+    have := pow_succ' k
+    unfold IsLeafOf; omega
+  have h0 : FInv k t0 :=
+    (run_FInv P k before _ (FInv_new k enc) (fun x hx => hleaf _ (hbefore x hx))).1
+  have hfr := run_frame P k q.idx q.kt hq.1 between t0 h0 hstored
+    (fun x hx => ⟨hleaf _ (hbetween x hx).1, (hbetween x hx).2⟩)
+  obtain ⟨n, hn⟩ := (mapGet_isSome_iff _ _).2 hstored |> Option.isSome_iff_exists.1
+  have hρ : ratchetAt P t0 q.idx q.kt = some (sel q.kt (toRatchets P n)) := by
+    simp only [ratchetAt, hn, Option.map_some]
+  rw [step_answer P k _ q hfr.1 (hleaf _ hq) _ (hfr.2.2.trans hρ),
+    step_answer P k t0 q h0 (hleaf _ hq) _ hρ]
+
+/-- the receiver's case spelled out: any application generations `gs` of the sender at leaf `i`,
+served or refused, in any order, do not change what the member answers for that sender's handshake
+generation `g` (and the other way round, by `ratchets_independent`) -/
+theorem handshake_unaffected_by_application (P : Prim B) (k : Nat) (enc : B) (before : List Req)
+    (i g : Nat) (gs : List Nat) (hi : i % 2 = 0 ∧ i ≤ 2 * (2 ^ k - 1))
+    (hbefore : ∀ x ∈ before, x.idx % 2 = 0 ∧ x.idx ≤ 2 * (2 ^ k - 1)) :
+    let t0 := (SecretTree.run P (SecretTree.new (2 ^ k) enc) before).2
+    hasKey t0.known i →
+      ((SecretTree.run P t0 (gs.map (.get i .application))).2.step P (.get i .handshake g)).1 =
+        (t0.step P (.get i .handshake g)).1 := by
+  intro t0 hstored
+  refine ratchets_independent P k enc before (gs.map (.get i .application)) (.get i .handshake g)
+    hi hbefore ?_ hstored
+  intro x hx
+  obtain ⟨a, _, rfl⟩ := List.mem_map.1 hx
+  exact ⟨hi, Or.inr (by simp [Req.kt])⟩
+
+-- a receiver (4 leaves) that served application generation 50 of the sender at leaf node 2 serves
+-- that sender's handshake generation 0, then handshake 3, then application 7 from its history
+example : (results (SecretTree.run toyPrim (SecretTree.new (2 ^ 2) [7])
+      [.get 2 .application 50, .get 2 .handshake 0, .get 2 .handshake 3, .get 2 .application 7,
+       .get 2 .handshake 0]).1).map okGen =
+    [some 50, some 0, some 3, some 7, none] := by decide +kernel
+
 /-! ### The repaired `message_key_generation`: a refused request no longer changes the tree
 
 `SecretTree::message_key_generation` used to call `take_leaf_ratchet` first — which consumes the
